@@ -99,7 +99,7 @@ thread_local! {
 
 /// node-steps one top-level evaluation may take before it is abandoned (the result is then empty and
 /// `take_gave_up()` is true: the caller must discard the case)
-pub const EVAL_BUDGET: i64 = 400_000;
+pub const EVAL_BUDGET: i64 = 200_000;
 
 /// fresh budget, flag cleared (start of every generated case)
 pub fn reset() {
